@@ -22,6 +22,7 @@ from aioftp import common as com  # noqa: E402
 from aioftp import pathio  # noqa: E402
 from aioftp import server as srv  # noqa: E402
 
+from . import vloop  # noqa: E402,F401
 from .vloop import VLoop, new_loop  # noqa: E402,F401
 
 STUBS = [
